@@ -173,12 +173,39 @@ def hpre(n):
     return lambda xs: all(0 <= x < len(OPS) for x in xs[:n - 1]) and 0 <= xs[n - 1] <= 40 and xs[n] in (0, 1) and 0 <= xs[n + 1] < len(POLICIES)
 
 
-for n in (1, 2, 3):
-    for first in range(len(OPS)):
-        REG.add(f"history/len{n}/first-{OPS[first]}", vec_fn(n + 2, _mk_history(n, first)), pre=vec_pre(n + 2, hpre(n)), timeout=2400 if n == 3 else 900, weight=n * n,
-                tier="quick" if n <= 2 else "thorough", funcs=F,
-                desc=f"history of {n} operation(s) starting with {OPS[first]} (the others symbolic over {len(OPS)} operations), fault position symbolic 0..40 (0 = none), "
-                     "fault kind symbolic (raise once / peer vanishes), policy symbolic over 4")
+for first in range(len(OPS)):
+    for kind in (0, 1):
+        REG.add(f"history/len1/first-{OPS[first]}/{'raise-once' if kind == 0 else 'peer-vanishes'}", vec_fn(3, _mk_history(1, first)),
+                pre=vec_pre(3, lambda xs, kind=kind: 0 <= xs[0] <= 40 and xs[1] == kind and 0 <= xs[2] < len(POLICIES)), timeout=900, weight=4, funcs=F,
+                desc=f"history of 1 operation ({OPS[first]}) + final close + reopen; fault position symbolic 0..40 (0 = none), fault kind "
+                     f"{'raise once' if kind == 0 else 'peer vanishes'}, policy symbolic over 4")
+
+
+def _mk_pair(first, second):
+    def body(xs):
+        try:
+            return run_history([first, second], xs[0], concrete(xs[1]), concrete(xs[2]))
+        except Exception as e:
+            return "exc:" + type(e).__name__ + ":" + str(e)[:80]
+    return body
+
+
+QUICK_PAIRS = {("open", "read"), ("open", "close"), ("read", "close"), ("with", "read"), ("close", "open"), ("write", "read"), ("generic-connected", "close"),
+               ("with-raise", "read"), ("read", "write"), ("generic-unconnected", "read")}
+for first in range(len(OPS)):
+    for second in range(len(OPS)):
+        quick = (OPS[first], OPS[second]) in QUICK_PAIRS
+        REG.add(f"history/len2/{OPS[first]}+{OPS[second]}", vec_fn(3, _mk_pair(first, second)),
+                pre=vec_pre(3, (lambda xs: 0 <= xs[0] <= 28 and xs[1] in (0, 1) and xs[2] in (0, 1)) if quick else (lambda xs: 0 <= xs[0] <= 40 and xs[1] in (0, 1) and 0 <= xs[2] < len(POLICIES))),
+                timeout=900, weight=3, funcs=F, tier="quick",
+                desc=f"history {OPS[first]}, {OPS[second]}, final close, reopen; fault position symbolic 0..{28 if quick else 40}, fault kind symbolic, policy symbolic over "
+                     f"{'large-FO-ok / large-FO-refused' if quick else 'all 4'}") if quick else \
+            REG.add(f"history/len2/{OPS[first]}+{OPS[second]}", vec_fn(3, _mk_pair(first, second)),
+                    pre=vec_pre(3, lambda xs: 0 <= xs[0] <= 40 and xs[1] in (0, 1) and 0 <= xs[2] < len(POLICIES)), timeout=1500, weight=3, funcs=F, tier="thorough",
+                    desc=f"history {OPS[first]}, {OPS[second]}, final close, reopen; fault position 0..40, kind and all 4 policies symbolic")
+for first in range(len(OPS)):
+    REG.add(f"history/len3/first-{OPS[first]}", vec_fn(5, _mk_history(3, first)), pre=vec_pre(5, hpre(3)), timeout=3000, weight=9, tier="thorough", funcs=F,
+            desc=f"history of 3 operations starting with {OPS[first]} (the others symbolic), fault position 0..40, kind, policy symbolic")
 
 
 # ---- one step from the directly constructed connected state (session + connection held by the target)
